@@ -47,16 +47,20 @@ Definition is_leaf_gen (g : gen) : bool :=
 Definition inc (g : gen) : nat :=
   match g with
   | GConditional | GIs => 3
-  | GVariable | GConst => 0
+  | GVariable | GConst | GArray => 0     (* gen_array_expr generates its elements at the same depth *)
   | _ => 1
   end.
 
 (* ---------- abstract recursion scheme ----------
    A tree records the composite nodes produced for one expression.  At depth d a generator
    offered by get_generators produces a node whose children are generated at depth d + inc g
-   (inc g >= 1 for every generator that has children); gen_new stops producing children
-   (bottom constants) once d + 1 > 2 * max_depth; GVariable re-dispatches at the same depth
-   with exclude_var (which removes GVariable from the leaf candidates), GConst is a leaf. *)
+   (inc g >= 1 for every generator that has children and increments the depth); gen_new stops
+   producing children (bottom constants) once d + 1 > 2 * max_depth; GVariable re-dispatches at
+   the same depth with exclude_var (which removes GVariable from the leaf candidates), GConst is
+   a leaf.  gen_array_expr does NOT increment the depth: the elements of an array expression are
+   generated at the SAME depth, for the element type, whose array nesting is one less -- so the
+   scheme carries a second counter a, the array nesting still available (at most A, the deepest
+   array nesting of a type of the program; it is A again below every depth-incrementing node). *)
 Inductive tree := Leaf | Node (children : list tree).
 
 Fixpoint height (t : tree) : nat :=
@@ -65,15 +69,18 @@ Fixpoint height (t : tree) : nat :=
   | Node l => S (fold_right (fun c m => Nat.max (height c) m) 0 l)
   end.
 
-Inductive Gen (max : nat) : nat -> tree -> Prop :=
-| G_Leaf d : Gen max d Leaf                                   (* constants, variables, bottoms *)
-| G_Same d t : Gen max d t -> Gen max d t                      (* gen_variable -> generate_expr(exclude_var) *)
-| G_Node d k cs :
+Inductive Gen (max A : nat) : nat -> nat -> tree -> Prop :=
+| G_Leaf a d : Gen max A a d Leaf                             (* constants, variables, bottoms *)
+| G_Same a d t : Gen max A a d t -> Gen max A a d t            (* gen_variable -> generate_expr(exclude_var) *)
+| G_Node a d k cs :
     1 <= k ->
     d <= 2 * max ->                                            (* beyond that gen_new yields only bottoms *)
-    (forall c, In c cs -> Gen max (d + k) c) ->
-    Gen max d (Node cs)
-| G_Deep d cs :
+    (forall c, In c cs -> Gen max A A (d + k) c) ->
+    Gen max A a d (Node cs)
+| G_Array a d cs :                                             (* gen_array_expr: same depth, smaller element type *)
+    (forall c, In c cs -> Gen max A a d c) ->
+    Gen max A (S a) d (Node cs)
+| G_Deep a d cs :
     2 * max < d ->
     (forall c, In c cs -> c = Leaf) ->                         (* gen_new past the cut: bottom constants *)
-    Gen max d (Node cs).
+    Gen max A a d (Node cs).
